@@ -16,6 +16,10 @@ LEVEL_TEXT = ("zernIndex is compared with Noll's rule enumerated from the defini
               "combination, and the gamma matrices against 4th-order finite differences of the generated modes and the analytic gradient. "
               "Exploration beyond the enumerated index range.")
 LEVEL_NOTE = "Trusted: scipy.special.eval_jacobi (cross-checked in-run against exact rational radial polynomials), NumPy. The meaning of `rot` is not judged, only its consistent use."
+# normalisation tags as a caller gets them from a configuration file, argv or an array: equal to the literals, but distinct objects
+# (string *values* select the normalisation, not object identity)
+RT_NOLL, RT_RMS, RT_P2V = "".join(("no", "ll")), "".join(("r", "ms")), "".join(("p", "2v"))
+
 RULE = "case = (function, j | (n, m), grid size, normalisation, rotation); non-trivial for j >= 2; distinct by parameters"
 ASSUMPTIONS = ["pixel centres at ((i + 1/2) - N/2)/(N/2); x along axis 1; theta = atan2(y, x)", "Gram bound 8 (n_max + 1)/N from the one-pixel edge ring"]
 REQUIRED = ["zernike.py:zernIndex", "zernike.py:zernike_nm", "zernike.py:zernike_noll", "zernike.py:zernikeArray",
@@ -198,11 +202,11 @@ def check_modes(ctx, Z, aotools, N, rng, jcount):
     ctx.metric("gram_err*N/(n_max+1)", gerr * N / (nmax + 1))
     ctx.check(gerr <= 8.0 * (nmax + 1) / N, "gram:bound", "max |G - I| = %.4f > 8 (n_max+1)/N = %.4f" % (gerr, 8.0 * (nmax + 1) / N), wit0)
     # other normalisations
-    Arms = Z.zernikeArray(jcount, N, norm="rms")
+    Arms = Z.zernikeArray(jcount, N, norm=RT_RMS)
     npix = aotools.circle(N / 2.0, N).sum()
     rms = np.sqrt((Arms ** 2).sum((1, 2)) / npix)
     ctx.close("rms_normalisation", rms, np.ones(jcount), 1e-12, "norm:rms", wit0)
-    Ap2v = Z.zernikeArray(jcount, N, norm="p2v")
+    Ap2v = Z.zernikeArray(jcount, N, norm=np.str_(RT_P2V))
     ctx.close("p2v_normalisation", Ap2v.max((1, 2)) - Ap2v.min((1, 2)), np.ones(jcount), 1e-12, "norm:p2v", wit0)
     for k in range(jcount):  # both are rescalings of the Noll modes
         if np.abs(A[k]).max() > 0:
@@ -236,7 +240,7 @@ def check_rotated_gram(ctx, Z, N, rng):
 
 def check_list_and_combination(ctx, Z, N, rng):
     J = int(rng.integers(3, 40))
-    for norm in ("noll", "rms", "p2v"):
+    for norm in (RT_NOLL, RT_RMS, RT_P2V, "rms", "p2v"):
         rot = float([0.0, rng.uniform(-3, 3)][int(rng.integers(0, 2))])
         idx = sorted(set(int(v) for v in rng.integers(1, J + 1, int(rng.integers(1, 8)))))
         if rng.random() < 0.5:
@@ -248,6 +252,12 @@ def check_list_and_combination(ctx, Z, N, rng):
         wit = {"N": N, "J": J, "list": idx, "norm": norm, "rot": rot}
         full = Z.zernikeArray(J, N, norm=norm, rot=rot)
         ctx.case("list_vs_count", key=(N, J, tuple(idx), norm, rot), nontrivial=True, sample=wit)
+        lit = {"noll": "noll", "rms": "rms", "p2v": "p2v"}[str(norm)]
+        ctx.check(np.array_equal(full, Z.zernikeArray(J, N, norm=lit, rot=rot)), "zernikeArray:norm_tag_by_value",
+                  "an equal normalisation string that is another object selects another normalisation", wit)
+        ph_tag = Z.phaseFromZernikes(np.arange(1.0, J + 1), N, norm=norm, rot=rot)
+        ctx.check(np.array_equal(ph_tag, Z.phaseFromZernikes(np.arange(1.0, J + 1), N, norm=lit, rot=rot)), "phaseFromZernikes:norm_tag_by_value",
+                  "an equal normalisation string that is another object selects another normalisation", wit)
         for form in (idx, np.array(idx), tuple(idx)):
             sub = pure_call(ctx, "zernikeArray", Z.zernikeArray, form, N, norm, rot)
             ok = np.shape(sub) == (len(idx), N, N) and np.array_equal(sub, full[np.array(idx) - 1])
